@@ -1,49 +1,73 @@
-"""C04 - tree-to-tree distances equal their split-set definitions and are true metrics."""
+"""C04 - tree-to-tree distances equal their split-set definitions and are true metrics.
+
+Every op is `generate a self-contained case (harness code)` -> `judge(case)` (library calls + independent oracle);
+`replay` is `judge` on the recorded case, so every failure kind reproduces with `./check C04 --replay <file>`.
+Exceptions: only an exception raised by a library frame can become a failure; a harness exception ends as exit 2."""
 import math
 from fractions import Fraction
 
+import common
 import treeutil as tu
 from props import c01
 
 ID = "C04"
 GEN_DEPENDS = ["PyBits"]
-RULE = ("pairs and triples of random trees (2-10 leaves quick, 25 thorough) over one namespace (extra members, holes), same or different "
-        "rooting state, dyadic / None / zero edge lengths, unary nodes and polytomies; re-drawn copies (children shuffled, "
-        "unifurcations inserted with the length split, unrooted trees re-seeded through an independent graph re-rooting); edit-then-"
-        "measure interleavings; foreign namespaces. Non-trivial = the two trees differ in at least one split")
+RULE = ("pairs and triples of random trees (1-10 leaves quick, 25 thorough) over one namespace (extra members, holes), one rooting "
+        "state per case (rooted / unrooted / unset), dyadic / None / zero edge lengths, unary nodes and polytomies; re-drawn copies "
+        "(children shuffled, unifurcations inserted with the length split, unrooted trees re-seeded through an independent graph "
+        "re-rooting); histories of structural edits (taxon swaps, length changes, leaf regrafts, on either tree) interleaved with "
+        "calls of all five public functions with default arguments and with is_bipartitions_updated=True; trees over a second, "
+        "equal-looking namespace object. Non-trivial = the two trees differ in at least one split")
 MODELLED_NOT_VERIFIED = [
     "C04: the Lean model (Model/C04.lean on top of C01.encode) is hand-written from false_positives_and_negatives / _get_length_diffs; "
-    "tied by comparing fp, fn, wRF, Euclid^2 and the missing-bipartition list per generated pair",
+    "tied by comparing fp, fn, wRF, Euclid^2 and the missing-bipartition set per generated pair",
     "C04: sqrt (the model and the theorems work with the squared Euclidean distance; Minkowski's inequality is stated on square roots in ℝ), "
     "binary64 rounding (exact comparison on dyadic lengths only), TreeShapeKernel classes",
+    "C04: staleness after edits, the namespace refusal and the is_bipartitions_updated=True paths are not modelled (oracle only)",
 ]
-EXPLANATION = ("Theorems: fp/fn/RF are the cardinalities of the one-sided and symmetric differences of the split sets; RF and wRF are symmetric, "
-               "zero on equal inputs, obey the triangle inequality, depend on the split->length maps only; refusal of missing lengths is symmetric; "
-               "Euclid obeys the triangle inequality (Minkowski).")
+EXPLANATION = ("Theorems: fp/fn/RF are the cardinalities of the one-sided and symmetric differences of the split sets; RF, wRF and Euclid^2 are "
+               "symmetric (value and definedness), zero on equal inputs, zero only between equal split->length functions, obey the triangle "
+               "inequality (Euclid: Minkowski on square roots; euclidSq_nonneg links the squared model value to the root), depend on the "
+               "split->length maps only. Bridges to what the driver runs: the "
+               "split list of edgeRecs is C01.encode's; rf_zero_iff_topology: RF of two rooted trees is 0 iff same topology up to child order "
+               "and unifurcations, fpfn_redraw_rooted: re-drawing a rooted tree changes no unweighted distance. _partial: "
+               "fpfn_child_order_partial / dist_child_order_partial (child reordering changes no distance nor its definedness; weighted: "
+               "under distinct splits; not covered: a not-rooted tree with bifurcating seed, unifurcation insertion for the weighted ones), "
+               "rf_zero_seed_move_partial (one seed-move step of an unrooted tree keeps RF 0; weighted distances and iteration not covered).")
 
 ROOT = c01.ROOT
+UNROOT = {"R": True, "U": False, "N": None}
+FUNCS = ("symmetric_difference", "false_positives_and_negatives", "weighted_robinson_foulds_distance", "euclidean_distance",
+         "find_missing_bipartitions")
 
 
 # ------------------------------------------------------------------ independent oracle
-def split_lengths(tree):
-    """{normalised split: total length of the edges inducing it} from scratch (None = 0), plus
-    the set of splits on which some non-root inducing edge has length None"""
+def split_table(tree):
+    """from scratch: ({split: total length of the edges inducing it (None = 0)}, {split: set of leafsets of those edges})"""
     masks = tu.leafset_masks(tree)
     L = masks[id(tree.seed_node)]
     low = L & -L
     rooted = bool(tree.is_rooted)
-    out, has_none = {}, set()
+    lens, clades = {}, {}
     for nd in tu.walk(tree.seed_node):
         m = masks[id(nd)]
         s = m if rooted else ((L & ~m) if (m & low) else m)
-        out[s] = out.get(s, Fraction(0)) + tu.F(nd.edge.length)
-    return out
+        lens[s] = lens.get(s, Fraction(0)) + tu.F(nd.edge.length)
+        clades.setdefault(s, set()).add(m)
+    return lens, clades
+
+
+def split_lengths(tree):
+    return split_table(tree)[0]
+
+
+def has_missing_length(tree):
+    """some edge other than the seed's has no length: the only thing that can justify a refusal"""
+    return any(nd.edge.length is None for nd in tu.walk(tree.seed_node) if nd is not tree.seed_node)
 
 
 def o_rf(d1, d2):
-    fp = len(set(d2) - set(d1))
-    fn = len(set(d1) - set(d2))
-    return fp, fn
+    return len(set(d2) - set(d1)), len(set(d1) - set(d2))
 
 
 def o_wrf(d1, d2):
@@ -54,7 +78,26 @@ def o_euclid_sq(d1, d2):
     return sum(((d1.get(s, 0) - d2.get(s, 0)) ** 2 for s in set(d1) | set(d2)), Fraction(0))
 
 
-# ------------------------------------------------------------------ generators
+def basal_survives(t):
+    """decided on the drawing alone (no library call): a tree that is not rooted whose seed, once unifurcations are suppressed, is
+    bifurcating, and which `collapse_basal_bifurcation` as documented does not open up (it acts only on a seed that has exactly
+    two children as drawn, one of them with >= 2 children).  Its two basal edges induce one and the same split."""
+    if t.is_rooted:
+        return False
+    kids = t.seed_node._child_nodes
+    if len(kids) == 2 and (len(kids[1]._child_nodes) >= 2 or len(kids[0]._child_nodes) >= 2):
+        return False
+    nd = t.seed_node
+    while len(nd._child_nodes) == 1:
+        nd = nd._child_nodes[0]
+    return len(nd._child_nodes) == 2
+
+
+def close(x, y):
+    return abs(x - y) <= 1e-9 * max(1.0, abs(x), abs(y))
+
+
+# ------------------------------------------------------------------ generators (harness side; nothing here is judged)
 def gen_ns(dendropy, rng, n):
     extra = rng.randint(0, 2)
     nholes = 1 if rng.random() < 0.2 else 0
@@ -71,10 +114,26 @@ def gen_on(dendropy, rng, tns, taxa, rooted, none_rate):
     return tu.build_tree(dendropy, shape, tns, taxa, lens, rooted)
 
 
+def gen_size(ctx, lo=3):
+    rng = ctx.rng
+    r = rng.random()
+    if r < 0.03:
+        return 1
+    if r < 0.07:
+        return 2
+    return rng.randint(lo, ctx.pick(10, 25))
+
+
+def same_rooting_state(rng, rooted):
+    """the statement quantifies over pairs in ONE rooting state; `None` (unset) and `False` both mean unrooted"""
+    if rooted is True or rng.random() < 0.8:
+        return rooted
+    return False if rooted is None else None
+
+
 def perturb(dendropy, rng, tree):
-    """a tree over the same leaves that shares most splits: clone through tokens, then swap two leaf taxa or regraft"""
-    toks, _ = tu.encode_tree(tree, with_labels=False)
-    t2, ids = tu.tree_from_tokens(dendropy, toks, rooted=tree.is_rooted, tns=tree.taxon_namespace)
+    """a tree over the same leaves that shares most splits: clone through tokens, then swap two leaf taxa, change lengths"""
+    t2 = clone(dendropy, tree)
     leaves = [nd for nd in tu.walk(t2.seed_node) if not nd._child_nodes]
     if len(leaves) >= 2:
         a, b = rng.sample(leaves, 2)
@@ -144,142 +203,171 @@ def clone(dendropy, tree):
     return t2
 
 
-def measure(dendropy, t1, t2):
-    """all public distances on FRESH clones (the calls re-encode and so mutate their arguments)"""
-    from dendropy.calculate import treecompare
-    out = {}
-    a, b = clone(dendropy, t1), clone(dendropy, t2)
-    out["fpfn"] = treecompare.false_positives_and_negatives(a, b)
-    a, b = clone(dendropy, t1), clone(dendropy, t2)
-    out["rf"] = treecompare.symmetric_difference(a, b)
-    a, b = clone(dendropy, t1), clone(dendropy, t2)
-    try:
-        out["wrf"] = treecompare.weighted_robinson_foulds_distance(a, b)
-    except ValueError:
-        out["wrf"] = "E"
-    a, b = clone(dendropy, t1), clone(dendropy, t2)
-    try:
-        out["euclid"] = treecompare.euclidean_distance(a, b)
-    except ValueError:
-        out["euclid"] = "E"
-    a, b = clone(dendropy, t1), clone(dendropy, t2)
-    out["missing"] = sorted(set(bp.split_bitmask for bp in treecompare.find_missing_bipartitions(a, b)))
-    return out
-
-
-def case_of(t1, t2, op="dist"):
-    k1, _ = tu.encode_tree(t1, with_labels=False)
-    k2, _ = tu.encode_tree(t2, with_labels=False)
-    return {"op": op, "tree": k1, "tree2": k2, "rooted": ROOT[t1.is_rooted], "rooted2": ROOT[t2.is_rooted],
-            "ns": c01.namespace_desc(t1.taxon_namespace), "basal_bifurcation_survives": basal_survives(t1) or basal_survives(t2)}
-
-
-def basal_survives(t):
-    """an unrooted tree that still has a bifurcating seed after default encoding (two leaves only, or a unifurcating
-    seed above a bifurcation: the collapse runs before the unifurcation is suppressed): its two basal edges induce
-    one and the same split and the split -> edge map sees only one of their lengths"""
-    if t.is_rooted:
-        return False
-    import dendropy
-    c = clone(dendropy, t)
-    c.encode_bipartitions()
-    return len(c.seed_node._child_nodes) == 2
+# ------------------------------------------------------------------ cases
+def case_of(op, trees, **extra):
+    """self-contained, JSON-able description: trees as protocol tokens over one recorded namespace"""
+    c = {"op": op, "ns": c01.namespace_desc(trees[0].taxon_namespace)}
+    for i, t in enumerate(trees):
+        suf = "" if i == 0 else str(i + 1)
+        c["tree" + suf] = tu.encode_tree(t, with_labels=False)[0]
+        c["rooted" + suf] = ROOT[t.is_rooted]
+    c["basal_bifurcation_survives"] = any(basal_survives(t) for t in trees)
+    c.update(extra)
+    return c
 
 
 def trees_of_case(dendropy, c):
     t1, _ = c01.tree_for_case(dendropy, c)
-    t2, _ = tu.tree_from_tokens(dendropy, c["tree2"], rooted={"R": True, "U": False, "N": None}[c["rooted2"]], tns=t1.taxon_namespace)
-    return t1, t2
+    out = [t1]
+    for suf in ("2", "3"):
+        if ("tree" + suf) in c:
+            t, _ = tu.tree_from_tokens(dendropy, c["tree" + suf], rooted=UNROOT[c.get("rooted" + suf, c["rooted"])], tns=t1.taxon_namespace)
+            out.append(t)
+    return out
 
 
-def close(x, y):
-    return abs(x - y) <= 1e-9 * max(1.0, abs(x), abs(y))
+# ------------------------------------------------------------------ calling the library
+def call(fn, *a, **kw):
+    """("v", value) or ("E", "<Type>: text") when a LIBRARY frame raised; an exception raised by harness code propagates"""
+    try:
+        return "v", fn(*a, **kw)
+    except Exception as e:
+        if not common.is_library_exception(e):
+            raise
+        return "E", "%s: %s" % (type(e).__name__, str(e)[:120])
 
 
-def check_pair(ctx, dendropy, t1, t2, pending, label="dist"):
-    """definition clauses (a),(b) on one ordered pair + correspondence line"""
-    case = case_of(t1, t2, label)
-    d1, d2 = split_lengths(t1), split_lengths(t2)
-    m = measure(dendropy, t1, t2)
+def measure(ctx, dendropy, t1, t2, case):
+    """all five public distances on FRESH clones (the calls re-encode and so mutate their arguments).  The unweighted ones must
+    return (an exception is a failure); the weighted ones may refuse: value or "E"."""
+    from dendropy.calculate import treecompare
+    out = {}
+
+    def need(name, *a, **kw):
+        st, v = call(getattr(treecompare, name), *a, **kw)
+        if st == "E":
+            ctx.fail("exception", "%s raised %s on trees over one namespace" % (name, v), dict(case, fn=name))
+            return None
+        return v
+    out["fpfn"] = need("false_positives_and_negatives", clone(dendropy, t1), clone(dendropy, t2))
+    out["rf"] = need("symmetric_difference", clone(dendropy, t1), clone(dendropy, t2))
+    for key, name in (("wrf", "weighted_robinson_foulds_distance"), ("euclid", "euclidean_distance")):
+        st, v = call(getattr(treecompare, name), clone(dendropy, t1), clone(dendropy, t2))
+        out[key] = "E" if st == "E" else v
+        if st == "E":
+            out[key + "_err"] = v
+    bps = need("find_missing_bipartitions", clone(dendropy, t1), clone(dendropy, t2))
+    out["missing"] = None if bps is None else sorted(set(bp.split_bitmask for bp in bps))
+    out["missing_pairs"] = None if bps is None else sorted(set((bp.split_bitmask, bp.leafset_bitmask) for bp in bps))
+    if out["fpfn"] is not None:
+        out["fpfn"] = tuple(out["fpfn"])
+    return out
+
+
+def check_refusal(ctx, m, t1, t2, case):
+    """a refusal needs a missing length somewhere; wRF and Euclid agree on whether the pair is refused"""
+    for k in ("wrf", "euclid"):
+        if m[k] == "E" and not (has_missing_length(t1) or has_missing_length(t2)):
+            ctx.fail("definedness", "%s refused (%s) although no edge below the seeds lacks a length" % (k, m.get(k + "_err")), case)
+    if (m["wrf"] == "E") != (m["euclid"] == "E"):
+        ctx.fail("definedness", "weighted RF and Euclidean distance disagree on whether the pair is refused (wRF: %s, Euclid: %s)" % (
+            m.get("wrf_err", "value"), m.get("euclid_err", "value")), case)
+
+
+def judge_pair(ctx, dendropy, t1, t2, case, pending, label="dist", extras=True, context=""):
+    """the definition clauses on one ORDERED pair (+ one correspondence line for the model)"""
+    (d1, c1), (d2, _) = split_table(t1), split_table(t2)
+    m = measure(ctx, dendropy, t1, t2, case)
     fp, fn = o_rf(d1, d2)
-    ctx.case(["dist", case["tree"], case["tree2"], case["rooted"], case["rooted2"]], fp + fn > 0, sample=case, kind=label)
-    if tuple(m["fpfn"]) != (fp, fn):
-        ctx.fail("definition", "false_positives_and_negatives = %s, one-sided split differences are (%d, %d)" % (m["fpfn"], fp, fn), case)
-    if m["rf"] != fp + fn:
-        ctx.fail("definition", "symmetric_difference = %s, splits in exactly one tree: %d" % (m["rf"], fp + fn), case)
-    if m["missing"] != sorted(set(d1) - set(d2)):
-        ctx.fail("definition", "find_missing_bipartitions = %s, reference-only splits are %s" % (m["missing"], sorted(set(d1) - set(d2))), case)
+    ctx.case([label, case["tree"], case.get("tree2"), case["rooted"], case.get("rooted2")], fp + fn > 0, sample=case, kind=label)
+    unw_kind = "representation" if label == "redraw" else "definition"
+    if m["fpfn"] is not None and m["fpfn"] != (fp, fn):
+        ctx.fail(unw_kind, "%sfalse_positives_and_negatives = %s, one-sided split differences are (%d, %d)" % (context, m["fpfn"], fp, fn), case)
+    if m["rf"] is not None and m["rf"] != fp + fn:
+        ctx.fail(unw_kind, "%ssymmetric_difference = %s, splits in exactly one tree: %d" % (context, m["rf"], fp + fn), case)
+    if m["missing"] is not None:
+        if m["missing"] != sorted(set(d1) - set(d2)):
+            ctx.fail(unw_kind, "%sfind_missing_bipartitions = %s, reference-only splits are %s" % (context, m["missing"], sorted(set(d1) - set(d2))), case)
+        else:
+            bad = [(s, lf) for (s, lf) in m["missing_pairs"] if lf not in c1.get(s, ())]
+            if bad:
+                ctx.fail("definition", "%sfind_missing_bipartitions returns bipartitions (split, leafset) %s whose leafset is not that of an edge "
+                         "of the reference tree inducing the split" % (context, bad[:4]), case)
     if m["wrf"] != "E":
         w = o_wrf(d1, d2)
-        if Fraction(m["wrf"]) != w and not close(m["wrf"], float(w)):
-            ctx.fail("definition", "weighted RF = %r, L1 norm of per-split length differences = %s" % (m["wrf"], w), case)
+        if not close(m["wrf"], float(w)):
+            ctx.fail("weighted-value", "%sweighted RF = %r, L1 norm of the per-split length differences = %s" % (context, m["wrf"], w), dict(case, fn="weighted_robinson_foulds_distance"))
     if m["euclid"] != "E":
         e2 = o_euclid_sq(d1, d2)
         if not close(m["euclid"], math.sqrt(float(e2))):
-            ctx.fail("definition", "euclidean_distance = %r, L2 norm = sqrt(%s)" % (m["euclid"], e2), case)
-    if (m["wrf"] == "E") != (m["euclid"] == "E"):
-        ctx.fail("definedness", "weighted RF and Euclidean distance disagree on whether the pair is refused", case)
-    extra_surface(ctx, dendropy, t1, t2, m, case)
-    got = "%d %d %s | %s" % (m["fpfn"][0], m["fpfn"][1], "E" if m["wrf"] == "E" else tu.frac(m["wrf"]),
-                             " ".join(str(x) for x in m["missing_order"]) if "missing_order" in m else "")
-    line = "dist %s %s %s %s" % (case["rooted"], case["rooted2"], " ".join(case["tree"]), " ".join(case["tree2"]))
-    pending.append((line, case, m))
-    return m, d1, d2
+            ctx.fail("weighted-value", "%seuclidean_distance = %r, L2 norm of the per-split length differences = sqrt(%s)" % (context, m["euclid"], e2), dict(case, fn="euclidean_distance"))
+    check_refusal(ctx, m, t1, t2, case)
+    if extras:
+        extra_surface(ctx, dendropy, t1, t2, m, case, extras)
+    if label in ("dist", "exh") and m["fpfn"] is not None and m["missing"] is not None:
+        line = "dist %s %s %s %s" % (case["rooted"], case["rooted2"], " ".join(case["tree"]), " ".join(case["tree2"]))
+        pending.append((line, case, m))
+    return m
 
 
-def extra_surface(ctx, dendropy, t1, t2, m, case):
-    """the other public entry points must agree with the ones judged above: the unweighted/weighted aliases, the deprecated
-    Tree methods, and is_bipartitions_updated=True on trees whose encodings ARE current"""
+def extra_surface(ctx, dendropy, t1, t2, m, case, extras=True):
+    """the other public entry points must agree with the five judged above: the unweighted/weighted aliases, the deprecated Tree
+    methods, and is_bipartitions_updated=True both on trees whose encodings ARE current and on trees never encoded
+    (`extras`: which of the four encoded/not-encoded combinations to run; True = all four, as every replay does)"""
     from dendropy.calculate import treecompare
-    r = ctx.rng.random()
-    if r > 0.35:
-        return
-    a, b = clone(dendropy, t1), clone(dendropy, t2)
-    vals = {}
-    try:
-        vals["unweighted_robinson_foulds_distance"] = treecompare.unweighted_robinson_foulds_distance(a, b)
+
+    def fresh(encode):
         a, b = clone(dendropy, t1), clone(dendropy, t2)
-        vals["Tree.symmetric_difference"] = a.symmetric_difference(b)
-        a, b = clone(dendropy, t1), clone(dendropy, t2)
-        vals["Tree.false_positives_and_negatives"] = tuple(a.false_positives_and_negatives(b))
-        a, b = clone(dendropy, t1), clone(dendropy, t2)
-        a.encode_bipartitions()
-        b.encode_bipartitions()
-        vals["symmetric_difference(is_bipartitions_updated=True)"] = treecompare.symmetric_difference(a, b, is_bipartitions_updated=True)
-        vals["false_positives_and_negatives(is_bipartitions_updated=True)"] = tuple(
-            treecompare.false_positives_and_negatives(a, b, is_bipartitions_updated=True))
-    except Exception as e:
-        ctx.fail("exception", "alias/updated-encoding entry point raised %s: %s" % (type(e).__name__, str(e)[:100]), case)
-        return
-    want = {"unweighted_robinson_foulds_distance": m["rf"], "Tree.symmetric_difference": m["rf"],
-            "Tree.false_positives_and_negatives": tuple(m["fpfn"]),
-            "symmetric_difference(is_bipartitions_updated=True)": m["rf"],
-            "false_positives_and_negatives(is_bipartitions_updated=True)": tuple(m["fpfn"])}
-    for k, v in vals.items():
-        if v != want[k]:
-            ctx.fail("definition", "%s = %s, symmetric_difference / false_positives_and_negatives with default arguments give %s" % (k, v, want[k]), case)
-    if m["wrf"] != "E":
-        for name, fn in (("robinson_foulds_distance", lambda x, y: treecompare.robinson_foulds_distance(x, y)),
-                         ("Tree.robinson_foulds_distance", lambda x, y: x.robinson_foulds_distance(y)),
-                         ("weighted_robinson_foulds_distance(is_bipartitions_updated=True)", None)):
-            a, b = clone(dendropy, t1), clone(dendropy, t2)
-            try:
-                if fn is None:
-                    a.encode_bipartitions()
-                    b.encode_bipartitions()
-                    v = treecompare.weighted_robinson_foulds_distance(a, b, is_bipartitions_updated=True)
-                else:
-                    v = fn(a, b)
-            except Exception as e:
-                ctx.fail("exception", "%s raised %s" % (name, type(e).__name__), case)
-                continue
-            if not close(v, m["wrf"]):
-                ctx.fail("definition", "%s = %r, weighted_robinson_foulds_distance with default arguments gives %r" % (name, v, m["wrf"]), case)
-    if m["euclid"] != "E":
-        a, b = clone(dendropy, t1), clone(dendropy, t2)
-        v = a.euclidean_distance(b)
-        if not close(v, m["euclid"]):
-            ctx.fail("definition", "Tree.euclidean_distance = %r, treecompare.euclidean_distance gives %r" % (v, m["euclid"]), case)
+        if encode & 1:
+            a.encode_bipartitions()
+        if encode & 2:
+            b.encode_bipartitions()
+        return a, b
+    unweighted = [
+        ("unweighted_robinson_foulds_distance", "rf", 0, lambda a, b: treecompare.unweighted_robinson_foulds_distance(a, b)),
+        ("Tree.symmetric_difference", "rf", 0, lambda a, b: a.symmetric_difference(b)),
+        ("Tree.false_positives_and_negatives", "fpfn", 0, lambda a, b: tuple(a.false_positives_and_negatives(b))),
+    ]
+    weighted = [
+        ("robinson_foulds_distance", "wrf", 0, lambda a, b: treecompare.robinson_foulds_distance(a, b)),
+        ("Tree.robinson_foulds_distance", "wrf", 0, lambda a, b: a.robinson_foulds_distance(b)),
+        ("Tree.euclidean_distance", "euclid", 0, lambda a, b: a.euclidean_distance(b)),
+        ("weighted_robinson_foulds_distance(edge_weight_attr='length')", "wrf", 0,
+         lambda a, b: treecompare.weighted_robinson_foulds_distance(a, b, edge_weight_attr="length")),
+    ]
+    variants = (3, 0, 1, 2) if extras is True else tuple(extras)
+    for enc in variants:          # both encoded / neither ever encoded / one of them
+        tag = "is_bipartitions_updated=True, %s" % {3: "both trees encoded", 0: "no tree encoded yet", 1: "only the first tree encoded",
+                                                    2: "only the second tree encoded"}[enc]
+        unweighted += [
+            ("symmetric_difference(%s)" % tag, "rf", enc, lambda a, b: treecompare.symmetric_difference(a, b, is_bipartitions_updated=True)),
+            ("false_positives_and_negatives(%s)" % tag, "fpfn", enc,
+             lambda a, b: tuple(treecompare.false_positives_and_negatives(a, b, is_bipartitions_updated=True))),
+            ("find_missing_bipartitions(%s)" % tag, "missing", enc,
+             lambda a, b: sorted(set(bp.split_bitmask for bp in treecompare.find_missing_bipartitions(a, b, is_bipartitions_updated=True)))),
+        ]
+        weighted += [
+            ("weighted_robinson_foulds_distance(%s)" % tag, "wrf", enc,
+             lambda a, b: treecompare.weighted_robinson_foulds_distance(a, b, is_bipartitions_updated=True)),
+            ("euclidean_distance(%s)" % tag, "euclid", enc, lambda a, b: treecompare.euclidean_distance(a, b, is_bipartitions_updated=True)),
+        ]
+    for name, key, enc, fn in unweighted:
+        if m[key] is None:
+            continue
+        a, b = fresh(enc)
+        st, v = call(fn, a, b)
+        if st == "E":
+            ctx.fail("exception", "%s raised %s" % (name, v), dict(case, fn=name))
+        elif v != m[key]:
+            ctx.fail("definition", "%s = %s, the function with default arguments gives %s" % (name, v, m[key]), dict(case, fn=name))
+    for name, key, enc, fn in weighted:
+        a, b = fresh(enc)
+        st, v = call(fn, a, b)
+        if (st == "E") != (m[key] == "E"):
+            ctx.fail("definedness", "%s is %s but the function with default arguments is %s" % (
+                name, "refused (%s)" % v if st == "E" else "defined", "refused" if m[key] == "E" else "defined"), dict(case, fn=name))
+        elif st != "E" and not close(v, m[key]):
+            ctx.fail("weighted-value", "%s = %r, the function with default arguments gives %r" % (name, v, m[key]), dict(case, fn=name))
 
 
 def flush(ctx, pending):
@@ -307,26 +395,19 @@ def flush(ctx, pending):
     del pending[:]
 
 
-# ------------------------------------------------------------------ ops
-def op_pair(ctx, dendropy, pending):
-    rng = ctx.rng
-    n = rng.randint(3, ctx.pick(10, 25)) if rng.random() < 0.97 else 2
-    tns = gen_ns(dendropy, rng, n)
-    taxa = rng.sample(list(tns), n)
-    rooted = rng.choice([True, False, None])
-    none_rate = rng.choice([0.0, 0.0, 0.15, 1.0])
-    t1 = gen_on(dendropy, rng, tns, taxa, rooted, none_rate)
-    r = rng.random()
-    if r < 0.45:
-        t2 = perturb(dendropy, rng, t1)
-    else:
-        t2 = gen_on(dendropy, rng, tns, taxa, rooted if rng.random() < 0.9 else rng.choice([True, False, None]),
-                    rng.choice([0.0, 0.0, 0.15, 1.0]))
-    m12, d1, d2 = check_pair(ctx, dendropy, t1, t2, pending)
-    m21, _, _ = check_pair(ctx, dendropy, t2, t1, pending)
-    case = case_of(t1, t2, "symmetry")
-    if m12["rf"] != m21["rf"] or tuple(m12["fpfn"]) != tuple(reversed(m21["fpfn"])):
-        ctx.fail("symmetry", "RF(t,u)=%s fp/fn=%s but RF(u,t)=%s fp/fn=%s" % (m12["rf"], m12["fpfn"], m21["rf"], m21["fpfn"]), case)
+# ------------------------------------------------------------------ judges (shared by run and replay)
+def judge_dist(ctx, dendropy, case, pending):
+    """an unordered pair: definition clauses in both orders, then symmetry of value and of definedness"""
+    t1, t2 = trees_of_case(dendropy, case)[:2]
+    extras = case.get("extras", True)
+    swapped = case_of(case["op"], [t2, t1], extras=extras)
+    m12 = judge_pair(ctx, dendropy, t1, t2, case, pending, "exh" if case["op"] == "exh" else "dist", extras)
+    if case["op"] == "exh":
+        return
+    m21 = judge_pair(ctx, dendropy, t2, t1, swapped, pending, "dist", extras)
+    if None not in (m12["rf"], m21["rf"], m12["fpfn"], m21["fpfn"]):
+        if m12["rf"] != m21["rf"] or m12["fpfn"] != tuple(reversed(m21["fpfn"])):
+            ctx.fail("symmetry", "RF(t,u)=%s fp/fn=%s but RF(u,t)=%s fp/fn=%s" % (m12["rf"], m12["fpfn"], m21["rf"], m21["fpfn"]), case)
     for k in ("wrf", "euclid"):
         if (m12[k] == "E") != (m21[k] == "E"):
             ctx.fail("definedness", "%s(t,u) is %s but %s(u,t) is %s: refusal of missing edge lengths depends on the argument order" % (
@@ -335,50 +416,32 @@ def op_pair(ctx, dendropy, pending):
             ctx.fail("symmetry", "%s(t,u)=%r but %s(u,t)=%r" % (k, m12[k], k, m21[k]), case)
 
 
-def op_redraw(ctx, dendropy, pending):
-    """zero between a tree and a re-drawing of it; distances to a third tree unchanged by re-drawing"""
-    rng = ctx.rng
-    n = rng.randint(3, ctx.pick(10, 25)) if rng.random() < 0.97 else 2
-    tns = gen_ns(dendropy, rng, n)
-    taxa = rng.sample(list(tns), n)
-    rooted = rng.choice([True, False, None])
-    none_rate = rng.choice([0.0, 0.0, 0.2])
-    t1 = gen_on(dendropy, rng, tns, taxa, rooted, none_rate)
-    if not rooted:
-        t1.seed_node.edge.length = None     # an unrooted tree has no root edge to carry a length when the seed moves
-    t1b, moved = redraw_lengths(dendropy, rng, t1)
-    t3 = perturb(dendropy, rng, t1)
-    case = case_of(t1, t1b, "redraw")
-    m = measure(dendropy, t1, t1b)
-    ctx.case(["redraw", case["tree"], case["tree2"], case["rooted"]], n >= 4, sample=case, kind="redraw-reseeded" if moved else "redraw")
-    if m["rf"] != 0 or tuple(m["fpfn"]) != (0, 0):
-        ctx.fail("representation", "RF between a tree and a re-drawing of it (children reordered, unifurcations inserted%s) is %s" % (
-            ", seed moved" if moved else "", m["rf"]), case)
-    for k in ("wrf", "euclid"):
-        if m[k] != "E" and not close(m[k], 0.0):
-            ctx.fail("representation", "%s between a tree and a re-drawing of it is %r" % (k, m[k]), case)
-    ma, mb = measure(dendropy, t1, t3), measure(dendropy, t1b, t3)
-    case3 = dict(case_of(t1b, t3, "redraw3"), original=case["tree"])
-    if ma["rf"] != mb["rf"]:
-        ctx.fail("representation", "RF to a third tree changes from %s to %s when the first tree is re-drawn" % (ma["rf"], mb["rf"]), case3)
-    for k in ("wrf", "euclid"):
-        if ma[k] != "E" and mb[k] != "E" and not close(ma[k], mb[k]):
-            ctx.fail("representation", "%s to a third tree changes from %r to %r when the first tree is re-drawn" % (k, ma[k], mb[k]), case3)
+def judge_redraw(ctx, dendropy, case, pending):
+    """tree2 is a re-drawing of tree (the harness checks that from scratch): every distance between them is zero, and the
+    distances to a third tree do not change (both follow from the definition clauses, judged on all three pairs)"""
+    ts = trees_of_case(dendropy, case)
+    t1, t1b = ts[0], ts[1]
+    if split_lengths(t1) != split_lengths(t1b):
+        raise RuntimeError("harness: tree2 of a redraw case is not a re-drawing of tree (split -> length tables differ)")
+    how = "between a tree and a re-drawing of it (children reordered, unifurcations inserted%s): " % (", seed moved" if case.get("moved") else "")
+    judge_pair(ctx, dendropy, t1, t1b, case, pending, "redraw", case.get("extras", True), context=how)
+    if len(ts) == 3:
+        t3 = ts[2]
+        for a, nm in ((t1, "the original"), (t1b, "the re-drawing")):
+            c3 = case_of("dist", [a, t3], extras=[])
+            judge_pair(ctx, dendropy, a, t3, c3, pending, "dist", False, context="(%s of a redraw case against a third tree) " % nm)
 
 
-def op_triple(ctx, dendropy, pending):
-    rng = ctx.rng
-    n = rng.randint(3, ctx.pick(9, 20))
-    tns = gen_ns(dendropy, rng, n)
-    taxa = rng.sample(list(tns), n)
-    rooted = rng.choice([True, False])
-    ts = [gen_on(dendropy, rng, tns, taxa, rooted, 0.0)]
-    ts.append(perturb(dendropy, rng, ts[0]) if rng.random() < 0.5 else gen_on(dendropy, rng, tns, taxa, rooted, 0.0))
-    ts.append(perturb(dendropy, rng, ts[1]) if rng.random() < 0.5 else gen_on(dendropy, rng, tns, taxa, rooted, 0.0))
-    ab, bc, ac = measure(dendropy, ts[0], ts[1]), measure(dendropy, ts[1], ts[2]), measure(dendropy, ts[0], ts[2])
-    case = dict(case_of(ts[0], ts[1], "triple"), tree3=tu.encode_tree(ts[2], with_labels=False)[0])
-    ctx.case(["triple", case["tree"], case["tree2"], case["tree3"]], ab["rf"] > 0 and bc["rf"] > 0, sample=case, kind="triple")
-    if ac["rf"] > ab["rf"] + bc["rf"]:
+def judge_triple(ctx, dendropy, case, pending):
+    ts = trees_of_case(dendropy, case)
+    ab = measure(ctx, dendropy, ts[0], ts[1], case)
+    bc = measure(ctx, dendropy, ts[1], ts[2], case)
+    ac = measure(ctx, dendropy, ts[0], ts[2], case)
+    for m, (x, y) in ((ab, (0, 1)), (bc, (1, 2)), (ac, (0, 2))):
+        check_refusal(ctx, m, ts[x], ts[y], case)
+    nontrivial = None not in (ab["rf"], bc["rf"]) and ab["rf"] > 0 and bc["rf"] > 0
+    ctx.case(["triple", case["tree"], case["tree2"], case["tree3"]], nontrivial, sample=case, kind="triple")
+    if None not in (ab["rf"], bc["rf"], ac["rf"]) and ac["rf"] > ab["rf"] + bc["rf"]:
         ctx.fail("triangle", "RF(a,c)=%s > RF(a,b)+RF(b,c)=%s+%s" % (ac["rf"], ab["rf"], bc["rf"]), case)
     for k in ("wrf", "euclid"):
         if "E" in (ab[k], bc[k], ac[k]):
@@ -387,76 +450,255 @@ def op_triple(ctx, dendropy, pending):
             ctx.fail("triangle", "%s(a,c)=%r > %s(a,b)+%s(b,c)=%r+%r" % (k, ac[k], k, k, ab[k], bc[k]), case)
 
 
-def op_stale(ctx, dendropy, pending):
-    """(d): with default arguments the result reflects the current structure, never a cached encoding"""
+NS_ENTRY_POINTS = (
+    [(n, lambda tc, a, b, n=n: getattr(tc, n)(a, b)) for n in FUNCS + ("unweighted_robinson_foulds_distance", "robinson_foulds_distance")]
+    + [(n + "(is_bipartitions_updated=True)", lambda tc, a, b, n=n: getattr(tc, n)(a, b, is_bipartitions_updated=True)) for n in FUNCS]
+    + [("Tree." + n, lambda tc, a, b, n=n: getattr(a, n)(b)) for n in ("symmetric_difference", "false_positives_and_negatives",
+                                                                       "robinson_foulds_distance", "euclidean_distance")])
+
+
+def judge_namespace(ctx, dendropy, case, pending):
+    """trees over two different namespace OBJECTS (equal labels) are refused by every entry point, whatever the error type;
+    also when both trees carry current encodings and is_bipartitions_updated=True"""
     from dendropy.calculate import treecompare
+    ctx.case(["namespace", case["tree"], case["tree2"], case["rooted"]], True, sample=case, kind="namespace")
+    for name, fn in NS_ENTRY_POINTS:
+        if case.get("fn") not in (None, name):
+            continue
+        for encoded in (False, True):
+            t1, _ = c01.tree_for_case(dendropy, case)
+            other = dict(case, tree=case["tree2"], rooted=case.get("rooted2", case["rooted"]))
+            t2, _ = c01.tree_for_case(dendropy, other)          # a second namespace object with the same labels and bits
+            if t1.taxon_namespace is t2.taxon_namespace:
+                raise RuntimeError("harness: the two trees of a namespace case share their namespace")
+            if encoded:
+                t1.encode_bipartitions()
+                t2.encode_bipartitions()
+            st, v = call(fn, treecompare, t1, t2)
+            if st == "v":
+                ctx.fail("namespace", "%s accepted trees over different taxon namespaces%s and returned %r" % (
+                    name, " (both already encoded)" if encoded else "", v if not isinstance(v, list) else len(v)), dict(case, fn=name))
+
+
+# ---- histories
+def apply_edit(dendropy, trees, step):
+    """apply one recorded edit; node numbers are positions in the current pre-order walk.  Returns False when it does not apply
+    (possible only when a replay runs against a library that drew the trees differently)."""
+    t = trees[step["tree"] % len(trees)]
+    nodes = tu.walk(t.seed_node)
+    kind = step["edit"]
+    if kind == "swap_taxa":
+        leaves = [nd for nd in nodes if not nd._child_nodes]
+        if len(leaves) < 2:
+            return False
+        a, b = leaves[step["a"] % len(leaves)], leaves[step["b"] % len(leaves)]
+        a.taxon, b.taxon = b.taxon, a.taxon
+        return True
+    if kind == "set_length":
+        nd = nodes[step["node"] % len(nodes)]
+        if nd is t.seed_node:
+            return False
+        nd.edge.length = float(Fraction(step["length"]))
+        return True
+    if kind == "regraft":
+        leaves = [nd for nd in nodes if not nd._child_nodes and nd._parent_node is not None]
+        if not leaves:
+            return False
+        lf = leaves[step["leaf"] % len(leaves)]
+        p = lf._parent_node
+        targets = [nd for nd in nodes if nd._child_nodes and nd is not p]
+        if len(p._child_nodes) < 2 or not targets:
+            return False
+        tgt = targets[step["target"] % len(targets)]
+        p.remove_child(lf)
+        tgt.add_child(lf)
+        return True
+    raise RuntimeError("harness: unknown edit %r" % kind)
+
+
+def gen_step(rng):
+    kind = rng.choice(["swap_taxa", "swap_taxa", "set_length", "regraft", "regraft"])
+    step = {"tree": rng.randrange(2), "edit": kind}
+    if kind == "swap_taxa":
+        step.update(a=rng.randrange(64), b=rng.randrange(64))
+    elif kind == "set_length":
+        step.update(node=rng.randrange(64), length=tu.frac(tu.dyadic(rng, zero_rate=0.0)))
+    else:
+        step.update(leaf=rng.randrange(64), target=rng.randrange(64))
+    calls = rng.sample(list(FUNCS), rng.randint(1, len(FUNCS)))
+    step["updated_first"] = [f for f in FUNCS if rng.random() < 0.15]     # un-judged calls that trust the old encodings
+    step["calls"] = calls
+    return step
+
+
+def history_call(ctx, dendropy, name, t1, t2, d1, d2, case, when, edited):
+    """one call with default arguments on the LIVE trees, judged against the from-scratch tables of their current structure.
+    A wrong answer after an edit is `stale` when the same call on fresh copies of the current trees is right (so the live
+    objects' cached data is to blame), otherwise it is a plain definition failure."""
+    from dendropy.calculate import treecompare
+    fp, fn = o_rf(d1, d2)
+    fresh = (clone(dendropy, t1), clone(dendropy, t2)) if edited else None      # copies of the structure the call is about to see
+    st, v = call(getattr(treecompare, name), t1, t2)
+    fcase = dict(case, fn=name)
+    weighted = name in ("weighted_robinson_foulds_distance", "euclidean_distance")
+    if st == "E":
+        if not weighted:
+            ctx.fail("exception", "%s: %s raised %s" % (when, name, v), fcase)
+        elif not (has_missing_length(t1) or has_missing_length(t2)):
+            ctx.fail("definedness", "%s: %s refused (%s) although no edge lacks a length" % (when, name, v), fcase)
+        return
+    if name == "weighted_robinson_foulds_distance":
+        canon, want = (lambda x: x), float(o_wrf(d1, d2))
+    elif name == "euclidean_distance":
+        canon, want = (lambda x: x), math.sqrt(float(o_euclid_sq(d1, d2)))
+    elif name == "symmetric_difference":
+        canon, want = (lambda x: x), fp + fn
+    elif name == "false_positives_and_negatives":
+        canon, want = tuple, (fp, fn)
+    else:
+        canon, want = (lambda x: sorted(set(bp.split_bitmask for bp in x))), sorted(set(d1) - set(d2))
+    got = canon(v)
+    same = (lambda a, b: close(a, b)) if weighted else (lambda a, b: a == b)
+    if same(got, want):
+        return
+    kind = "weighted-value" if weighted else "definition"
+    if fresh is not None:
+        st2, v2 = call(getattr(treecompare, name), *fresh)
+        if st2 == "v" and same(canon(v2), want):
+            kind = "stale"
+    ctx.fail(kind, "%s: %s with default arguments = %r, the current structure gives %r%s" % (
+        when, name, got, want, " (fresh copies of the same two trees give the right answer)" if kind == "stale" else ""), fcase)
+
+
+def judge_history(ctx, dendropy, case, pending, rng=None, nsteps=0):
+    """query - edit - query ... on the same two tree objects.  With `rng`: generates the steps while running them (the library's
+    own re-drawing of the trees during a call decides what the next edit can be) and records them in case["steps"]."""
+    from dendropy.calculate import treecompare
+    t1, t2 = trees_of_case(dendropy, case)[:2]
+    trees = [t1, t2]
+    if rng is None:
+        case = dict(case, steps=list(case.get("steps", [])))
+    steps = case.setdefault("steps", [])
+    case["basal_bifurcation_survives"] = basal_survives(t1) or basal_survives(t2)
+    d1, d2 = split_lengths(t1), split_lengths(t2)
+    for name in case.get("first_calls", FUNCS):       # populate encodings and split -> edge maps
+        history_call(ctx, dendropy, name, t1, t2, d1, d2, case, "before any edit", False)
+    i = 0
+    while True:
+        if rng is not None:
+            if i >= nsteps:
+                break
+            steps.append(gen_step(rng))
+        elif i >= len(steps):
+            break
+        step = steps[i]
+        i += 1
+        if not apply_edit(dendropy, trees, step):
+            continue
+        case["basal_bifurcation_survives"] = basal_survives(t1) or basal_survives(t2)     # of the drawings this step's calls start from
+        d1, d2 = split_lengths(t1), split_lengths(t2)
+        for name in step.get("updated_first", ()):
+            call(getattr(treecompare, name), t1, t2, is_bipartitions_updated=True)     # may legitimately be stale: not judged
+        for name in step["calls"]:
+            history_call(ctx, dendropy, name, t1, t2, d1, d2, dict(case, steps=steps[:i]), "after edit %d (%s of tree %d)" % (i, step["edit"], step["tree"] + 1), True)
+    ctx.case(["history", case["tree"], case["tree2"], steps], True, sample=dict(case, steps=steps[:3]), kind="history")
+    return case
+
+
+JUDGES = {"dist": judge_dist, "exh": judge_dist, "symmetry": judge_dist, "redraw": judge_redraw, "redraw3": judge_dist,
+          "stale": judge_dist, "triple": judge_triple, "namespace": judge_namespace, "history": judge_history}
+
+
+def judge(ctx, dendropy, case, pending):
+    """run one case; a library exception escaping a judge (outside the places where the statement allows a refusal) is a failure"""
+    try:
+        JUDGES[case["op"]](ctx, dendropy, case, pending)
+    except Exception as e:
+        if not common.is_library_exception(e):
+            raise
+        ctx.fail("exception", "%s: the library raised %s: %s" % (case["op"], type(e).__name__, str(e)[:200]), case)
+
+
+# ------------------------------------------------------------------ ops: build a case, then judge it
+def gen_pair(ctx, dendropy):
+    rng = ctx.rng
+    n = gen_size(ctx)
+    tns = gen_ns(dendropy, rng, n)
+    taxa = rng.sample(list(tns), n)
+    rooted = rng.choice([True, False, None])
+    t1 = gen_on(dendropy, rng, tns, taxa, rooted, rng.choice([0.0, 0.0, 0.15, 1.0]))
+    if rng.random() < 0.45:
+        t2 = perturb(dendropy, rng, t1)
+        t2.is_rooted = same_rooting_state(rng, rooted)
+    else:
+        t2 = gen_on(dendropy, rng, tns, taxa, same_rooting_state(rng, rooted), rng.choice([0.0, 0.0, 0.15, 1.0]))
+    return case_of("dist", [t1, t2], extras=[rng.randrange(4)] if rng.random() < 0.3 else [])
+
+
+def gen_redraw(ctx, dendropy):
+    rng = ctx.rng
+    n = gen_size(ctx)
+    tns = gen_ns(dendropy, rng, n)
+    taxa = rng.sample(list(tns), n)
+    rooted = rng.choice([True, False, None])
+    t1 = gen_on(dendropy, rng, tns, taxa, rooted, rng.choice([0.0, 0.0, 0.2]))
+    if not rooted:
+        t1.seed_node.edge.length = None     # an unrooted tree has no root edge to carry a length when the seed moves
+    t1b, moved = redraw_lengths(dendropy, rng, t1)
+    t3 = perturb(dendropy, rng, t1)
+    return case_of("redraw", [t1, t1b, t3], moved=moved, extras=[rng.randrange(4)] if rng.random() < 0.15 else [])
+
+
+def gen_triple(ctx, dendropy):
+    rng = ctx.rng
+    n = rng.randint(3, ctx.pick(9, 20))
+    tns = gen_ns(dendropy, rng, n)
+    taxa = rng.sample(list(tns), n)
+    rooted = rng.choice([True, False, None])
+    ts = [gen_on(dendropy, rng, tns, taxa, rooted, 0.0)]
+    ts.append(perturb(dendropy, rng, ts[0]) if rng.random() < 0.5 else gen_on(dendropy, rng, tns, taxa, rooted, 0.0))
+    ts.append(perturb(dendropy, rng, ts[1]) if rng.random() < 0.5 else gen_on(dendropy, rng, tns, taxa, rooted, 0.0))
+    return case_of("triple", ts)
+
+
+def gen_namespace(ctx, dendropy):
+    rng = ctx.rng
+    n = rng.randint(1, 6)
+    tns = gen_ns(dendropy, rng, n)
+    taxa = rng.sample(list(tns), n)
+    rooted = rng.choice([True, False, None])
+    t1 = gen_on(dendropy, rng, tns, taxa, rooted, 0.0)
+    t2 = clone(dendropy, t1) if rng.random() < 0.4 else gen_on(dendropy, rng, tns, taxa, rooted, 0.0)
+    return case_of("namespace", [t1, t2])
+
+
+def gen_history(ctx, dendropy):
     rng = ctx.rng
     n = rng.randint(4, ctx.pick(9, 16))
     tns = gen_ns(dendropy, rng, n)
     taxa = rng.sample(list(tns), n)
-    rooted = rng.choice([True, False])
+    rooted = rng.choice([True, False, None])
     t1 = gen_on(dendropy, rng, tns, taxa, rooted, 0.0)
-    t2 = gen_on(dendropy, rng, tns, taxa, rooted, 0.0)
-    treecompare.symmetric_difference(t1, t2)            # populates encodings and edge maps
-    treecompare.weighted_robinson_foulds_distance(t1, t2)
-    # edit t1: swap two leaf taxa, change a length, maybe prune/regraft a leaf
-    leaves = [nd for nd in tu.walk(t1.seed_node) if not nd._child_nodes]
-    a, b = rng.sample(leaves, 2)
-    a.taxon, b.taxon = b.taxon, a.taxon
-    x = rng.choice(tu.walk(t1.seed_node))
-    x.edge.length = tu.dyadic(rng)
-    if rng.random() < 0.5 and len(leaves) > 3:
-        lf = rng.choice(leaves)
-        p = lf._parent_node
-        if p is not None and len(p._child_nodes) > 2:
-            p.remove_child(lf)
-            tgt = rng.choice([nd for nd in tu.walk(t1.seed_node) if nd._child_nodes])
-            tgt.add_child(lf)
-    case = case_of(t1, t2, "stale")
-    d1, d2 = split_lengths(t1), split_lengths(t2)
-    fp, fn = o_rf(d1, d2)
-    got_rf = treecompare.symmetric_difference(t1, t2)
-    got_w = treecompare.weighted_robinson_foulds_distance(t1, t2)
-    ctx.case(["stale", case["tree"], case["tree2"]], True, sample=case, kind="stale")
-    if got_rf != fp + fn:
-        ctx.fail("stale", "after editing a tree, symmetric_difference with default arguments = %s, current structure gives %d" % (got_rf, fp + fn), case)
-    if not close(got_w, float(o_wrf(d1, d2))):
-        ctx.fail("stale", "after editing a tree, weighted RF with default arguments = %r, current structure gives %s" % (got_w, o_wrf(d1, d2)), case)
+    t2 = perturb(dendropy, rng, t1) if rng.random() < 0.5 else gen_on(dendropy, rng, tns, taxa, rooted, 0.0)
+    first = [f for f in FUNCS if rng.random() < 0.7]
+    return case_of("history", [t1, t2], first_calls=first, steps=[])
 
 
-def op_namespace(ctx, dendropy, pending):
-    from dendropy.calculate import treecompare
-    from dendropy.utility import error
-    rng = ctx.rng
-    n = rng.randint(2, 6)
-    tns1 = tu.make_namespace(dendropy, n)
-    tns2 = tu.make_namespace(dendropy, n)
-    t1 = gen_on(dendropy, rng, tns1, list(tns1), True, 0.0)
-    t2 = gen_on(dendropy, rng, tns2, list(tns2), True, 0.0)
-    case = {"op": "namespace", "n": n}
-    ctx.case(["namespace", n, rng.random()], True, kind="namespace")
-    for name in ("symmetric_difference", "false_positives_and_negatives", "weighted_robinson_foulds_distance",
-                 "euclidean_distance", "find_missing_bipartitions", "unweighted_robinson_foulds_distance", "robinson_foulds_distance"):
-        try:
-            getattr(treecompare, name)(t1, t2)
-            ctx.fail("namespace", "%s accepted trees over different taxon namespaces" % name, dict(case, fn=name))
-        except error.TaxonNamespaceIdentityError:
-            pass
-    # deprecated aliases on Tree agree with the functions
-    t3 = gen_on(dendropy, rng, tns1, list(tns1), True, 0.0)
-    import warnings
-    with warnings.catch_warnings():
-        warnings.simplefilter("ignore")
-        if t1.symmetric_difference(t3) != treecompare.symmetric_difference(t1, t3) or \
-                t1.false_positives_and_negatives(t3) != treecompare.false_positives_and_negatives(t1, t3):
-            ctx.fail("definition", "Tree.symmetric_difference alias disagrees with treecompare.symmetric_difference", case)
-
-
-OPS = [("pair", 0.45), ("redraw", 0.2), ("triple", 0.15), ("stale", 0.12), ("namespace", 0.08)]
+OPS = [("pair", 0.42), ("redraw", 0.2), ("triple", 0.15), ("history", 0.15), ("namespace", 0.08)]
+GENS = {"pair": gen_pair, "redraw": gen_redraw, "triple": gen_triple, "history": gen_history, "namespace": gen_namespace}
 
 
 def run_op(ctx, dendropy, op, pending):
-    {"pair": op_pair, "redraw": op_redraw, "triple": op_triple, "stale": op_stale, "namespace": op_namespace}[op](ctx, dendropy, pending)
+    case = GENS[op](ctx, dendropy)
+    if op == "history":
+        try:
+            judge_history(ctx, dendropy, case, pending, rng=ctx.rng, nsteps=ctx.rng.randint(1, 4))
+        except Exception as e:
+            if not common.is_library_exception(e):
+                raise
+            ctx.fail("exception", "history: the library raised %s: %s" % (type(e).__name__, str(e)[:200]), case)
+    else:
+        judge(ctx, dendropy, case, pending)
 
 
 def run(ctx):
@@ -469,13 +711,7 @@ def run(ctx):
     for _ in range(ctx.pick(2500, 60000)):
         if ctx.out_of_time():
             break
-        op = rng.choices(names, weights)[0]
-        state = rng.getstate()
-        try:
-            run_op(ctx, dendropy, op, pending)
-        except Exception as e:
-            ctx.fail("exception", "%s raised %s: %s" % (op, type(e).__name__, str(e)[:200]),
-                     {"op": op, "rng_state": [state[0], list(state[1]), state[2]], "tier": ctx.tier})
+        run_op(ctx, dendropy, rng.choices(names, weights)[0], pending)
         if len(pending) >= 400:
             flush(ctx, pending)
     flush(ctx, pending)
@@ -486,7 +722,7 @@ def run(ctx):
 def exhaustive(ctx, dendropy, pending):
     """all ordered pairs of shapes with <= 5 leaves (identity labelling vs all rotations), both rootings, unit lengths"""
     count = 0
-    for n in range(2, 6):
+    for n in range(1, 6):
         shapes = tu.all_shapes(n)
         tns = tu.make_namespace(dendropy, n)
         members = list(tns)
@@ -496,7 +732,7 @@ def exhaustive(ctx, dendropy, pending):
                     for rot in range(n if n <= 4 else 2):
                         t1 = tu.build_tree(dendropy, s1, tns, members, lambda: 1.0, rooted)
                         t2 = tu.build_tree(dendropy, s2, tns, members[rot:] + members[:rot], lambda: 2.0, rooted)
-                        check_pair(ctx, dendropy, t1, t2, pending, "exh")
+                        judge(ctx, dendropy, case_of("exh", [t1, t2], extras=[]), pending)
                         count += 1
                 if len(pending) >= 1500:
                     flush(ctx, pending)
@@ -505,24 +741,21 @@ def exhaustive(ctx, dendropy, pending):
 
 
 def replay(ctx, rec):
+    """re-run ONE recorded case: the judge of its op on the recorded trees (and steps).  Old records carrying only a generator
+    state are re-generated from it."""
     dendropy = __import__("dendropy")
     c = rec["replay"]
     pending = []
-    if "rng_state" in c:
+    if "tree" not in c and "rng_state" in c:
         st = c["rng_state"]
         ctx.rng.setstate((st[0], tuple(st[1]), st[2]))
         ctx.tier = c.get("tier", ctx.tier)
-        try:
-            run_op(ctx, dendropy, c["op"], pending)
-        except Exception as e:
-            ctx.fail("exception", "%s raised %s: %s" % (c["op"], type(e).__name__, str(e)[:200]), c)
-    elif c.get("op") in ("dist", "exh", "symmetry", "redraw", "redraw3", "stale"):
-        t1, t2 = trees_of_case(dendropy, c)
-        m12, _, _ = check_pair(ctx, dendropy, t1, t2, pending)
-        m21, _, _ = check_pair(ctx, dendropy, t2, t1, pending)
-        for k in ("wrf", "euclid"):
-            if (m12[k] == "E") != (m21[k] == "E"):
-                ctx.fail("definedness", "%s refused for one argument order only" % k, c)
-        if c["op"] == "redraw" and (m12["rf"] != 0 or (m12["wrf"] != "E" and not close(m12["wrf"], 0.0))):
-            ctx.fail("representation", "distance between a tree and its re-drawing: RF %s wRF %s" % (m12["rf"], m12["wrf"]), c)
+        run_op(ctx, dendropy, {"stale": "history"}.get(c["op"], c["op"]), pending)
+    elif c.get("op") in JUDGES:
+        case = {k: v for k, v in c.items() if k != "fn" or c.get("op") == "namespace"}
+        if "tree2" not in case:
+            raise RuntimeError("harness: replay record of op %r has no second tree" % c.get("op"))
+        judge(ctx, dendropy, case, pending)
+    else:
+        raise RuntimeError("harness: cannot replay op %r" % c.get("op"))
     flush(ctx, pending)
